@@ -96,3 +96,8 @@ impl AsyncWrite for Stream {
         Pin::new(&mut self.get_mut().stream).poll_close(cx)
     }
 }
+
+#[cfg(kani)]
+pub(crate) mod verif {
+    include!(concat!(env!("LIBP2P_VERIF"), "/hooks/swarm_stream.rs"));
+}
